@@ -525,6 +525,14 @@ func crashCase(r *gen.R, idx int) []run.Case {
 		if r.P(50) {
 			stale = []byte{0xAA, 0xBB, 0xCC}
 			staleTag = "stale_tmp:yes"
+			if r.P(60) {
+				// the remains of a LARGER interrupted commit: longer than any file written below
+				stale = make([]byte, 1<<16)
+				for i := range stale {
+					stale[i] = byte(0xA0 + i%7)
+				}
+				staleTag = "stale_tmp:long"
+			}
 		}
 		reqBase := fmt.Sprintf(`{"case":%q,"commit":%d,"stale":%v}`, caseID, c, stale != nil)
 		viol := func(what, witness, detail string) run.Violation {
